@@ -3,7 +3,12 @@
 // as Gallina, and compares the results.
 package synth
 
-import "bytes"
+import (
+	"bytes"
+	"errors"
+	"os"
+	"path"
+)
 
 // P is a struct with a table entry.
 type P struct {
@@ -274,4 +279,18 @@ func CountDown(n int) int {
 		t++
 	}
 	return t
+}
+
+// a function that goes on with effects: the statements in front of the first effect are
+// translated on their own (Config.Prefixes); a variadic library call; an error constructor
+func Store(dir, name string) error {
+	fp := name
+	if len(fp) > 0 && fp[0] == '/' || fp == ".." {
+		return errors.New("outside: " + name)
+	}
+	fp = path.Join(dir, fp)
+	if err := os.Setenv("GO2COQ_SYNTH_STORE", fp); err != nil {
+		return err
+	}
+	return nil
 }
